@@ -945,17 +945,23 @@ void oasis_write_repetition(OasisStream& out, const Repetition repetition, doubl
                     // Types 4/5 hold unsigned values only: negative coordinates need general deltas
                     oasis_putc(10, out);
                     oasis_write_unsigned_integer(out, repetition.coords.count - 1);
-                    oasis_write_gdelta(out, (int64_t)llround(*c0 * scaling), 0);
-                    for (uint64_t i = repetition.coords.count - 1; i > 0; --i, ++c0, ++c1) {
-                        oasis_write_gdelta(out, (int64_t)llround((*c1 - *c0) * scaling), 0);
+                    // Deltas between rounded coordinates: rounding each difference would add up
+                    int64_t last = (int64_t)llround(*c0 * scaling);
+                    oasis_write_gdelta(out, last, 0);
+                    for (uint64_t i = repetition.coords.count - 1; i > 0; --i, ++c1) {
+                        int64_t next = (int64_t)llround(*c1 * scaling);
+                        oasis_write_gdelta(out, next - last, 0);
+                        last = next;
                     }
                 } else {
                     oasis_putc(4, out);
                     oasis_write_unsigned_integer(out, repetition.coords.count - 1);
-                    oasis_write_unsigned_integer(out, (uint64_t)llround(*c0 * scaling));
-                    for (uint64_t i = repetition.coords.count - 1; i > 0; --i) {
-                        oasis_write_unsigned_integer(out,
-                                                     (uint64_t)llround((*c1++ - *c0++) * scaling));
+                    int64_t last = (int64_t)llround(*c0 * scaling);
+                    oasis_write_unsigned_integer(out, (uint64_t)last);
+                    for (uint64_t i = repetition.coords.count - 1; i > 0; --i, ++c1) {
+                        int64_t next = (int64_t)llround(*c1 * scaling);
+                        oasis_write_unsigned_integer(out, (uint64_t)(next - last));
+                        last = next;
                     }
                 }
                 free_allocation(items);
@@ -972,17 +978,22 @@ void oasis_write_repetition(OasisStream& out, const Repetition repetition, doubl
                     // Types 6/7 hold unsigned values only: negative coordinates need general deltas
                     oasis_putc(10, out);
                     oasis_write_unsigned_integer(out, repetition.coords.count - 1);
-                    oasis_write_gdelta(out, 0, (int64_t)llround(*c0 * scaling));
-                    for (uint64_t i = repetition.coords.count - 1; i > 0; --i, ++c0, ++c1) {
-                        oasis_write_gdelta(out, 0, (int64_t)llround((*c1 - *c0) * scaling));
+                    int64_t last = (int64_t)llround(*c0 * scaling);
+                    oasis_write_gdelta(out, 0, last);
+                    for (uint64_t i = repetition.coords.count - 1; i > 0; --i, ++c1) {
+                        int64_t next = (int64_t)llround(*c1 * scaling);
+                        oasis_write_gdelta(out, 0, next - last);
+                        last = next;
                     }
                 } else {
                     oasis_putc(6, out);
                     oasis_write_unsigned_integer(out, repetition.coords.count - 1);
-                    oasis_write_unsigned_integer(out, (uint64_t)llround(*c0 * scaling));
-                    for (uint64_t i = repetition.coords.count - 1; i > 0; --i) {
-                        oasis_write_unsigned_integer(out,
-                                                     (uint64_t)llround((*c1++ - *c0++) * scaling));
+                    int64_t last = (int64_t)llround(*c0 * scaling);
+                    oasis_write_unsigned_integer(out, (uint64_t)last);
+                    for (uint64_t i = repetition.coords.count - 1; i > 0; --i, ++c1) {
+                        int64_t next = (int64_t)llround(*c1 * scaling);
+                        oasis_write_unsigned_integer(out, (uint64_t)(next - last));
+                        last = next;
                     }
                 }
                 free_allocation(items);
@@ -992,13 +1003,17 @@ void oasis_write_repetition(OasisStream& out, const Repetition repetition, doubl
             if (repetition.offsets.count > 0) {
                 oasis_putc(10, out);
                 oasis_write_unsigned_integer(out, repetition.offsets.count - 1);
-                Vec2* v0 = repetition.offsets.items;
-                Vec2* v1 = v0 + 1;
-                oasis_write_gdelta(out, (int64_t)llround(v0->x * scaling),
-                                   (int64_t)llround(v0->y * scaling));
-                for (uint64_t i = repetition.coords.count - 1; i > 0; --i, ++v0, ++v1) {
-                    oasis_write_gdelta(out, (int64_t)llround((v1->x - v0->x) * scaling),
-                                       (int64_t)llround((v1->y - v0->y) * scaling));
+                Vec2* v = repetition.offsets.items;
+                int64_t last_x = (int64_t)llround(v->x * scaling);
+                int64_t last_y = (int64_t)llround(v->y * scaling);
+                oasis_write_gdelta(out, last_x, last_y);
+                v++;
+                for (uint64_t i = repetition.offsets.count - 1; i > 0; --i, ++v) {
+                    int64_t next_x = (int64_t)llround(v->x * scaling);
+                    int64_t next_y = (int64_t)llround(v->y * scaling);
+                    oasis_write_gdelta(out, next_x - last_x, next_y - last_y);
+                    last_x = next_x;
+                    last_y = next_y;
                 }
             }
             break;
